@@ -119,10 +119,14 @@ def splitter_corr(ctx, rng, n):
         else:
             volume = rng.choice(["binomial", "binomial", "perfect", "duplicate"])
             noise = rng.choice([0.0, 0.2, 0.5, 1.0])
-            sp = lineage_splitter(M, modes, volume, noise)
+            # the options name a default mode and list the species that deviate from it - or list a species explicitly even
+            # though it has the default mode, or has the mode that would be the default if none were named (binomial)
+            default = rng.choice([None, None, "binomial", "duplicate", "perfect"])
+            explicit = {s_: m_ for s_, m_ in modes.items() if m_ != (default or "binomial") or rng.chance(1, 2)}
+            sp = lineage_splitter(M, explicit, volume, noise, default=default)
             job.update(splitter_json(M, modes, volume, noise))
         case = {"splitter": kind, "modes": modes, "volume": volume, "noise": noise, "state": state, "vol": vol, "seed": seed,
-                "options": opts if kind == "general" else None, "reconfigured_object": kind == "general"}
+                "options": opts if kind == "general" else (dict(explicit, default=default) if kind == "lineage" else None), "reconfigured_object": kind == "general"}
         ctx.begin_case(case)
         py_seed_random(seed)
         d, e = sp.py_partition(_cell(state, vol, 1.5))
